@@ -55,7 +55,7 @@ Qed.
 Definition after_pass_bound (s : lim) : Q := if qlt (l_rate s) 1 then 0 else l_rate s.
 
 Lemma step_props s now :
-  wf s -> l_upd s < now ->
+  wf s -> l_upd s <= now ->
   exists s' p, lim_step s now = Ok (s', p) /\ wf s' /\ l_rate s' = l_rate s
     /\ l_upd s <= l_upd s' <= now
     /\ (forall t, supply s' t <= supply s t - (if p then 1 else 0))
@@ -63,8 +63,6 @@ Lemma step_props s now :
     /\ (p = false -> s' = s \/ (l_upd s' == now /\ False)).
 Proof.
   intros (Hr & Hm & Ht & Hj) Hnow. unfold lim_step, add_new_tokens.
-  assert (Qeq_bool (now - l_upd s) 0 = false) as ->.
-  { destruct (Qeq_bool (now - l_upd s) 0) eqn:E; [|reflexivity]. apply Qeq_bool_iff in E. lra. }
   pose proof (qmax_ge_r (l_rate s) 1) as Hmax1. pose proof (qmax_ge_l (l_rate s) 1) as Hmaxr.
   destruct (qlt 1 ((now - l_upd s) * l_rate s)) eqn:Ef.
   - (* tokens added *)
@@ -99,7 +97,7 @@ Proof.
 Qed.
 
 Fixpoint increasing (prev : Q) (l : list Q) : Prop :=
-  match l with [] => True | x :: t => prev < x /\ increasing x t end.
+  match l with [] => True | x :: t => prev <= x /\ increasing x t end.
 
 Definition count_true (ps : list bool) : Z := Z.of_nat (length (filter (fun b : bool => b) ps)).
 
@@ -228,8 +226,6 @@ Lemma step_fires s now : wf s -> 1 < (now - l_upd s) * l_rate s -> l_upd s < now
   exists s', lim_step s now = Ok (s', true).
 Proof.
   intros (Hr & Hm & Ht & Hj) Hf Hlt. unfold lim_step, add_new_tokens.
-  assert (Qeq_bool (now - l_upd s) 0 = false) as ->.
-  { destruct (Qeq_bool (now - l_upd s) 0) eqn:E; [|reflexivity]. apply Qeq_bool_iff in E. lra. }
   assert (qlt 1 ((now - l_upd s) * l_rate s) = true) as -> by (apply qlt_true; exact Hf).
   cbn [l_tokens]. pose proof (qmax_ge_r (l_rate s) 1).
   assert (qlt (qmin (l_tokens s + (now - l_upd s) * l_rate s) (l_max s)) 1 = false) as ->
@@ -309,7 +305,7 @@ Proof.
   destruct (exists_last Hne) as (waits & t_last & E).
   assert (t0 :: sleeps = (t0 :: waits) ++ [t_last]) as El by (rewrite E; reflexivity).
   rewrite El. apply limiter_liveness; [exact Hwf| |].
-  - rewrite <- El. cbn [increasing]. split; [exact Ht0|apply spaced_increasing; exact Hsp].
+  - rewrite <- El. cbn [increasing]. split; [lra|apply spaced_increasing; exact Hsp].
   - pose proof (spaced_last sleeps t0 Hsp) as Hl.
     assert (last sleeps t0 = t_last) as Elast by (rewrite E; apply last_last).
     rewrite Elast in Hl. destruct Hwf as (Hr & _). nra.
